@@ -26,12 +26,12 @@ NOQ = {"m": "NOQ", "a": "-", "w": "-"}
 SRQ = {"m": "SRQ", "a": "a8a", "w": "w8c"}
 MODELS = {
     "chain": {"ops": [{"kind": "EW1", "ins": [0], "outs": [1]}, {"kind": "FIXT", "ins": [1], "outs": [2]}],
-              "trole": ["act", "act", "act"], "gins": [0], "gouts": [2]},
+              "trole": ["act", "act", "act"], "gins": [0], "gouts": [2], "codes": ["GELU", "TANH"]},
     "fc_add": {"ops": [{"kind": "FC", "ins": [0, 1, 2], "outs": [3]}, {"kind": "EW2", "ins": [3, 0], "outs": [4]}],
-               "trole": ["act", "w", "b", "act", "act"], "gins": [0], "gouts": [4]},
+               "trole": ["act", "w", "b", "act", "act"], "gins": [0], "gouts": [4], "codes": ["FULLY_CONNECTED", "ADD"]},
     "two_in": {"ops": [{"kind": "EW2", "ins": [0, 1], "outs": [2]}, {"kind": "SAMEIN0", "ins": [2], "outs": [3]},
                        {"kind": "EW2", "ins": [3, 4], "outs": [5]}],
-               "trole": ["act", "act", "act", "act", "c", "act"], "gins": [0, 1], "gouts": [2, 5]},
+               "trole": ["act", "act", "act", "act", "c", "act"], "gins": [0, 1], "gouts": [2, 5], "codes": ["ADD", "AVERAGE_POOL_2D", "MUL"]},
 }
 
 
@@ -68,8 +68,8 @@ def _replay(item):
   from ai_edge_litert import interpreter as tfl
   mname, beh, seed, nsamples = item
   sub = MODELS[mname]
-  scn = {"subs": [sub], "mode": [[SRQ if on else NOQ for on in beh["sel"]]], "inmode": SRQ if beh["selIn"] else NOQ,
-         "outmode": SRQ if beh["selOut"] else NOQ}
+  scn = {"subs": [{k: v for k, v in sub.items() if k != "codes"}], "mode": [[SRQ if on else NOQ for on in beh["sel"]]],
+         "inmode": SRQ if beh["selIn"] else NOQ, "outmode": SRQ if beh["selOut"] else NOQ, "codes": [sub["codes"]]}
   model, info = synth.build(scn, seed)
   acts, idx, _ = runtime_view(sub)
   rng = np.random.default_rng(seed + 17)
@@ -149,7 +149,7 @@ def _deep_equal(a, b):
   if isinstance(a, (list, tuple)):
     return len(a) == len(b) and all(_deep_equal(x, y) for x, y in zip(a, b))
   if isinstance(a, np.ndarray) or isinstance(b, np.ndarray):
-    return np.array_equal(np.asarray(a), np.asarray(b))
+    return np.array_equal(np.asarray(a), np.asarray(b), equal_nan=True)
   return a == b
 
 
